@@ -295,11 +295,12 @@ int main(int argc, char **argv) {
         gCaseFailed = false;
         int steps = (int) (rng.chance(250) ? rng.range(1, 10) : rng.range(10, maxSteps));
         uint64_t s = rng.next();
-        switch (rng.below(5)) {
+        switch (rng.below(6)) {
             case 0: runCase<int, std::equal_to<int>, true>(s, steps, "int"); break;
             case 1: runCase<long, std::equal_to<long>, true>(s, steps, "long"); break;
             case 2: runCase<double, Tol, false>(s, steps, "double, tolerance 0.5"); break;
             case 3: runCase<float, std::equal_to<float>, true>(s, steps, "float"); break;
+            case 4: runCase<unsigned char, std::equal_to<unsigned char>, true>(s, steps, "unsigned char"); break;
             default: runCase<std::string, std::equal_to<std::string>, true>(s, steps, "std::string"); break;
         }
     }
